@@ -301,6 +301,7 @@ def table():
         ("parsestruct", [], no_args(lambda m: [[0], [1], [2]]), always),
         ("parsesep", [], no_args(lambda m: [[k] for k in range(m + 2)]), always),
         ("parselist", [], no_args(lambda m: [[k] for k in range(m + 2)]), never),
+        ("parserepplus", [], no_args(lambda m: [[k] for k in range(m + 2)]), always),
         ("optsarg", [], no_args(lambda m: [[0], [1]]), always),
         ("optsoptional", [], no_args(lambda m: [[0], [1]]), always),
         ("optsproduct", [], no_args(lambda m: [[0], [1], [2]]), always),
@@ -325,8 +326,6 @@ def table():
 # operations on which the unchanged tree disagrees with the property (notes/C05.md, DEFECT CANDIDATE); run last
 def candidates():
     return [
-        # DEFECT CANDIDATE 2 (notes/C05.md): parse::repetition_plus copies its first result through an initializer_list
-        # ("parserepplus", [], no_args(lambda m: [[k] for k in range(m + 2)]), never),
     ]
 
 
